@@ -771,7 +771,8 @@ func gen(r *lib.Rand, tier string, emit func(string)) {
 		}
 	}
 	if tier == "thorough" {
-		product(0, 5, 0, 2, 1) // 463 histories x 1365 programs
+		product(0, 4, 0, 2, 1) // 463 histories x 341 programs, all
+		product(5, 5, 0, 2, 3) // x 1024 programs of 5 calls, every 3rd
 		product(0, 3, 3, 3, 7) // 9261 histories x 85 programs, every 7th
 		product(4, 5, 3, 3, 307)
 	} else {
@@ -784,7 +785,7 @@ func gen(r *lib.Rand, tier string, emit func(string)) {
 	// random: longer programs (with read-until-EOF), more batches, bigger slices, odd read sizes
 	n := 20000
 	if tier == "thorough" {
-		n = 150000
+		n = 100000
 	}
 	sizes := []int{0, 1, 1, 2, 3, 4, 7, 8, 16, 4096}
 	bigSizes := []int{16, 100, 4095, 4096, 4097, 5000}
